@@ -1,0 +1,17 @@
+//go:build verif
+
+package tsdb
+
+// VerifRollSegment closes the partition's active segment for writing and appends a new,
+// empty one, exactly as writeLogEntry does when the next entry does not fit into the active
+// segment (segments are at least 4 MB, so the external verification harness cannot reach a
+// roll-over with small inputs otherwise).
+func (p *SeriesPartition) VerifRollSegment() error {
+	p.mu.Lock()
+	defer p.mu.Unlock()
+	if p.closed {
+		return ErrSeriesPartitionClosed
+	}
+	_, err := p.createSegment()
+	return err
+}
